@@ -121,11 +121,11 @@ CASES = {"coap_read": case_coap_read, "coap_write": case_coap_write}
 def plan(tier):
     work = []
     for ids in READ_SETS:
-        alph = OUTCOMES if len(ids) <= 2 else ["ok", "s4", "tid", "ctl"]
+        alph = OUTCOMES if len(ids) <= (2 if tier == "quick" else 3) else ["ok", "s4", "tid", "ctl"]
         vecs = list(itertools.product(alph, repeat=len(ids)))
         work.append(("coap_read", {"ids": ids, "replies": vecs[:1], "vectors": vecs}))
     for ids in WRITE_SETS:
-        alph = OUTCOMES if len(ids) <= 2 else ["ok", "s6", "tid", "ctl"]
+        alph = OUTCOMES if len(ids) <= (2 if tier == "quick" else 3) else ["ok", "s6", "tid", "ctl"]
         vecs = list(itertools.product(alph, repeat=len(ids)))
         work.append(("coap_write", {"ids": ids, "replies": vecs[:1], "vectors": vecs}))
     return work
